@@ -171,7 +171,8 @@ class CachedProxy(Cached[T_Stored]):
 		basepath = '-'.join(elems)
 		file_format = self._options.get('format', '')
 		extention = f'.{file_format}' if file_format else ''
-		glob_pattern = f'{basepath}-*{extention}'
+		# XXX 作業ディレクトリー名にGlobのメタ文字('[', '*', '?')が含まれていても旧ファイルを検出できるようにエスケープ
+		glob_pattern = f'{glob.escape(basepath)}-*{extention}'
 		return glob.glob(glob_pattern)
 
 	def load_cache(self, cache_path: str) -> T_Stored:
